@@ -513,7 +513,11 @@ def native_run(scratch_repo, tests, timeout):
                 sm = re.search(r'---- ' + re.escape(full) + r' stdout ----\n(.*?)(?=\n---- |\nfailures:|\Z)', so, flags=re.S)
                 msg = (sm.group(1) if sm else so[-1500:])[:3000]
             samples = [m2.group(1)[:400] for m2 in re.finditer(r'VERIF-NATIVE-SAMPLE ' + re.escape(t['name']) + r' (.*)', so)][:4]
-            out[t['name']] = dict(status='discharged' if verdict == 'ok' else 'refuted', message=msg, cases=cases, nontrivial=nontrivial, samples=samples, time_s=round(wall, 1), cmd=' '.join(cmd), test=full)
+            status = 'discharged' if verdict == 'ok' else 'refuted'
+            if rc in (124, 137) and status == 'discharged':
+                # the test process was stopped by the time limit: some test in it did not finish, so nothing in it counts as a pass
+                status, msg = 'undecided', 'the native test process ran into its time limit (%s s); this test had passed, another one did not finish' % timeout
+            out[t['name']] = dict(status=status, message=msg, cases=cases, nontrivial=nontrivial, samples=samples, time_s=round(wall, 1), cmd=' '.join(cmd), test=full)
     return out
 
 
